@@ -5,6 +5,7 @@ import PqlModel.Props.C01Sem
 import PqlModel.Props.C06Operand
 import PqlModel.Props.C05ParseStatement
 import PqlModel.Props.C01Templates
+import PqlModel.Props.C02EndToEnd
 #print axioms Pql.C01.C01_parens_write
 #print axioms Pql.C01.C01_parens_wrap
 #print axioms Pql.C01.C01_unparen_write
